@@ -2,6 +2,7 @@
 
 Three sub-checks against the plain build compiled from the working tree:
   repro : two identical calls with a fixed non-negative integer seed agree;
+  xproc : the same calls repeated in a fresh interpreter with another PYTHONHASHSEED agree with this process;
   zerot : schedule of zeros — no result has a larger value than the supplied
           initial state; for tie-free integer-labelled Matrix models visited in
           order the final state equals the reference sweep "flip iff dE < 0";
@@ -63,6 +64,51 @@ def run_repro(spec, rec):
 def repro_strategy():
     return ag.call_spec(seeds=st.one_of(st.just(0), st.integers(0, 2 ** 31 - 1)),
                         num_anneals=gen.pick((2, 3), (1, 2), (5, 2), (7, 1)), stale=False)
+
+
+# ---------------------------------------------------------------------------
+# repro across interpreter runs: "identical calls" includes the same script run twice - that is what a seed is for.
+# The child runs with another PYTHONHASHSEED (python randomises string hashes from run to run by default), so
+# anything that reaches the kernels in set / hash order shows up as a difference.
+
+def run_xproc(spec, rec):
+    import json
+    import os
+    import subprocess
+    import sys
+    import qubovert as qv
+    from .c12_child import canonical
+    from .common import ROOT, jdumps
+    calls = list(spec["calls"])
+    mine = []
+    with warnings.catch_warnings():
+        warnings.simplefilter("ignore")
+        for c in calls:
+            f, model, kwargs, expected, ref_terms, spin, init = ag.prepare(qv, c)
+            mine.append(canonical(lib(f, model, what=c["func"], **kwargs)))
+    env = dict(os.environ, PYTHONHASHSEED=str(spec["hashseed"]), VERIF_OVERLAY=os.environ.get("VERIF_OVERLAY", ""))
+    p = subprocess.run([sys.executable, "-W", "ignore", "-m", "vf.c12_child"], input=jdumps(calls), cwd=ROOT, env=env,
+                       capture_output=True, text=True, timeout=600)
+    if p.returncode != 0:
+        raise RuntimeError("xproc child failed (harness): %s" % p.stderr[-2000:])
+    theirs = json.loads(p.stdout)
+    for i, (a, b) in enumerate(zip(mine, theirs)):
+        if isinstance(b, dict):
+            raise Violation("xproc_child_exception", "call %r raised in the child only: %r" % (calls[i], b))
+        if a != b:
+            j = next((k for k, (x, y) in enumerate(zip(a, b)) if x != y), None)
+            raise Violation("not_reproducible_across_interpreter_runs",
+                            "the same seeded call gives different results under PYTHONHASHSEED=%s and =%s: call=%r "
+                            "result #%r: %r vs %r" % (os.environ.get("PYTHONHASHSEED"), spec["hashseed"], calls[i], j,
+                                                      a[j] if j is not None else len(a), b[j] if j is not None else len(b)))
+    strs = any(isinstance(l, (str, tuple)) for c in calls for l in c["labels"])
+    rec.case(spec, strs and len(calls) >= 2, ["xproc", "string_or_tuple_labels" if strs else "int_labels"])
+    rec.add("xproc_calls", len(calls))
+
+
+def xproc_strategy():
+    call = ag.call_spec(seeds=st.integers(0, 2 ** 31 - 1), num_anneals=gen.pick((2, 2), (3, 1)), stale=False)
+    return st.fixed_dictionaries({"hashseed": st.integers(1, 4000), "calls": st.lists(call, min_size=4, max_size=10)})
 
 
 # ---------------------------------------------------------------------------
@@ -332,5 +378,6 @@ def subchecks(tier):
         Sub("zerot", zerot_strategy(), run_zerot, quick=4000, thorough=100000),
         # each dist case runs in its own forked child: the C wrapper leaks the result lists of every call
         # (Py_BuildValue "OO" without releasing them; ~25 MB per 2*10^5 anneals), see DESIGN section 8
+        Sub("xproc", xproc_strategy(), run_xproc, quick=60, thorough=1500, shrink_quick=False),
         Sub("dist", dist_strategy(), forked(run_dist), quick=144, thorough=3600, shrink_quick=False),
     ]
